@@ -11,7 +11,7 @@ from checks import c10
 PID = "C16"
 RULE = ("Real file_util.py processes in a temp directory. Source image: cassette or disk, written by the tool's own "
         "containers or by the independent writers (arbitrary leaders / scattered granule chains), holding 1-5 files "
-        "with distinct names in upper, lower or mixed case, all kinds, boundary lengths (1..30000 bytes). Target: "
+        "with names in upper, lower or mixed case (in one case of three two files share a name, same or swapped letter case), all kinds, boundary lengths (1..30000 bytes). Target: "
         "--to_cas / --to_dsk / --to_bin; --files absent, a subset spelled in upper / lower / mixed case, or a name "
         "that matches nothing; chains source -> other kind -> back. Oracle: the independent reader of the target finds "
         "exactly the selected files in source order with identical type, data type, data, and (machine language) load "
@@ -54,7 +54,8 @@ _case = st.fixed_dictionaries(dict(
     src_kind=st.sampled_from(["cas", "dsk"]), writer=st.sampled_from(["tool", "independent"]), files=_files,
     target=st.sampled_from(["cas", "dsk", "other", "other", "bin"]),
     select=st.sampled_from(["all", "all", "subset", "subset", "nomatch"]), sel_mask=st.integers(1, 31),
-    sel_case=st.sampled_from(["upper", "lower", "as_is", "swap"]), back=st.booleans(), k=st.integers(0, 10 ** 6)))
+    sel_case=st.sampled_from(["upper", "lower", "as_is", "swap"]), back=st.booleans(), k=st.integers(0, 10 ** 6),
+    dup=st.integers(0, 5)))
 
 
 def enumerated(tier, seed):
@@ -67,7 +68,7 @@ def searches(tier):
 
 def render(case):
     out = dict(case)
-    out["files"] = [filegen.short_file(f) for f in case["files"]]
+    out["files"] = [filegen.short_file(f) for f in _files_of(case)]
     return out
 
 
@@ -113,10 +114,23 @@ def _compare(got, want):
     return None
 
 
+def _files_of(case):
+    """the case's files; in one case of three the last file takes the first one's name (same or swapped letter case):
+    an image may hold several files of one name, and every one of them is a file of the source"""
+    files = [dict(f) for f in case["files"]]
+    if case.get("dup", 1) % 3 == 0 and len(files) >= 2:
+        first = files[0]["name"]
+        files[-1]["name"] = first.swapcase() if case["dup"] == 3 else first
+    return files
+
+
 def execute(case):
-    files = case["files"]
+    files = _files_of(case)
+    case = dict(case, files=files)
     datas = [filegen.expand(f["data"]) for f in files]
     labels = ["src:" + case["src_kind"], "writer:" + case["writer"]]
+    if len(set(f["name"].upper() for f in files)) < len(files):
+        labels.append("duplicate_name")
     if any(f["name"] != f["name"].upper() for f in files):
         labels.append("lowercase_name")
     target = case["target"]
@@ -131,9 +145,14 @@ def execute(case):
             selected = []
         else:
             idx = [i for i in range(len(files)) if case["sel_mask"] >> i & 1] or [0]
-            selected = [(files[i], datas[i]) for i in idx]
+            chosen = set(files[i]["name"].upper() for i in idx)
+            selected = [(f, d) for f, d in zip(files, datas) if f["name"].upper() in chosen]     # every file of a chosen name
             spell = {"upper": str.upper, "lower": str.lower, "as_is": str, "swap": str.swapcase}[case["sel_case"]]
-            argv_files = ["--files"] + [spell(files[i]["name"]) for i in reversed(idx)]
+            names = []
+            for i in reversed(idx):
+                if files[i]["name"].upper() not in [n.upper() for n in names]:
+                    names.append(files[i]["name"])
+            argv_files = ["--files"] + [spell(n) for n in names]
     nontrivial = bool(argv_files) or "lowercase_name" in labels
     with driver.TempDir() as tmp:
         src = "source." + case["src_kind"]
